@@ -26,7 +26,7 @@ import random
 import numpy as np
 
 from .. import tlc
-from ..lik_c06 import CFIT_KINDS, IMPL_KINDS, Factory, quiet, take
+from ..lik_c06 import CFIT_KINDS, IMPL_KINDS, INVARIANT_ONLY, Factory, quiet, registered_custom_models, take
 
 LEVEL = "exploration"
 
@@ -74,7 +74,7 @@ class Scn:
         self.sc = sc
         kind = sc["kind"]
         self.kind = kind
-        self.spec_kind, opts = IMPL_KINDS[kind]
+        self.spec_kind, opts = IMPL_KINDS[kind] if kind in IMPL_KINDS else INVARIANT_ONLY[kind]
         self.cfit = self.spec_kind in CFIT_KINDS
         opts = dict(opts)
         if self.cfit:
@@ -361,6 +361,10 @@ def run(ctx):
             counterfactual.append(inv)
     r = tlc.run("Jets", jets_cfg(os.path.join(wdir, "jets_scn.cfg"), "scenarios", "small", v), work=wdir, workers=4, coverage=False, timeout=600)
     scenarios = sorted(r.out["scenarios"], key=lambda s: json.dumps(s, sort_keys=True))
+    custom, _ = registered_custom_models()
+    missing = [k for k in custom if not any(s["kind"] == k for s in scenarios)]
+    if missing:
+        raise tlc.MachineryError("likelihood models registered by tf_pwa/model/custom.py but absent from the scenario space of spec/Jets.tla: %s" % missing)
     ctx.tlc(r, "Jets: scenario space")
     if len(scenarios) < 100:
         raise tlc.MachineryError("scenario space too small: %d" % len(scenarios))
@@ -368,7 +372,7 @@ def run(ctx):
 
     # ---------------------------------------------------------------- replay
     # stratified: every kind; every bound kind, floating set, constraint kind at least once
-    budget = 10 if quick else 38
+    budget = 9 if quick else 40
     chosen = choose(scenarios, rng, budget, quick)
     npoints = 1 if quick else 2
     stats = {"scenarios": 0, "points": 0, "fd_checks": 0, "ill_conditioned": 0, "identities": 0, "max_fd_rel": 0.0}
@@ -428,8 +432,16 @@ def choose(scenarios, rng, budget, quick):
         cand = [s for s in pools[k] if s["shape"] == sh and s["floating"] == "couplings" and s not in chosen and (s["batch"] == "single" or n_ >= 2)]
         cand.sort(key=lambda s: (-richness(s) if n_ % 2 else richness(s), json.dumps(s, sort_keys=True)))
         chosen += cand[:1]
+    # always: the registered custom models beyond simple / simple_cfit, with ragged batches (their NLL parts carry
+    # terms that belong to the data set, not to the batch: value with gradient = stand-alone NLL for every batch size)
+    for k in (("constr_frac",) if quick else ("constr_frac", "cfit_constr_frac", "simple_clip", "simple_chi2")):
+        cand = sorted([s for s in pools.get(k, []) if s["batch"] == "ragged" and s["floating"] == "couplings" and s["bounds"] == "none"],
+                      key=lambda s: (-richness(s), json.dumps(s, sort_keys=True)))
+        chosen += cand[:1]
     for k in pools:
         pools[k] = [s for s in pools[k] if s["shape"] == "columns" or s in chosen]
+    for k in ("constr_frac", "cfit_constr_frac", "simple_clip", "simple_chi2"):
+        fast = [x for x in fast if x != k]
     ki = 0
     rep = 0
     while len(chosen) < budget and rep < 40:
@@ -445,9 +457,9 @@ def choose(scenarios, rng, budget, quick):
                     ki += t + 1
                     break
         rep += 1
-    for k in fast:  # every kind at least once
+    for k in fast:  # every kind at least once (appended: forced scenarios are never displaced)
         if not any(s["kind"] == k for s in chosen):
-            chosen[-1 - fast.index(k)] = max(pools[k], key=richness)
+            chosen.append(max(pools[k], key=richness))
     return chosen
 
 
@@ -471,7 +483,7 @@ def check_scenario(ctx, fac, sc, rng, npoints, v, stats, quick, with_eff):
         return
     stats["scenarios"] += 1
     kind = sc["kind"]
-    cfit_family = kind in ("cfit", "cfit_cached", "cfit_ext", "simple_cfit")
+    cfit_family = kind in ("cfit", "cfit_cached", "cfit_ext", "simple_cfit", "constr_frac", "cfit_constr_frac", "simple_chi2")
     n = len(s.names)
     f_g = vm.trans_fcn_grad(fcn.nll_grad)
     f_gh = vm.trans_f_grad_hess(fcn.nll_grad_hessian)
@@ -617,8 +629,8 @@ def check_scenario(ctx, fac, sc, rng, npoints, v, stats, quick, with_eff):
                 stats["max_fd_rel"] = max(stats["max_fd_rel"], float(np.max(np.abs(hp - ext))) / sc_h)
                 continue
             if cfit_family and v["cfith"] == "inherited":
-                # is it the default model's formula?  (same amplitude object, same data, same weights, no background sample)
-                fdflt = quiet(FCN, Model(s.amp, 0.0), s.data, s.phsp, batch=65000, gauss_constr=dict(s.c.gauss_constr_dic))
+                # is it the default model's formula?  (same amplitude object, same samples, same weights and w_bkg)
+                fdflt = quiet(FCN, Model(s.amp, 0.4), s.data, s.phsp, bg=s.bg, batch=65000, gauss_constr=dict(s.c.gauss_constr_dic))
                 gd_, hd_ = quiet(vm.trans_grad_hessp(fdflt.grad_hessp), x, d)
                 if ident_ok(ghp, gd_, float(np.max(np.abs(ghp))) + 1e-9) and ident_ok(hp, hd_, float(np.max(np.abs(hp))) + 1e-9):
                     ctx.violation("%s:grad_hessp:default_model_formula" % kind, {"scenario": sc, "gradient_from_grad_hessp": ghp.tolist(), "nll_grad": g1.tolist(), "hessp": hp.tolist(), "fd": ext.tolist()})
